@@ -22,7 +22,7 @@ func init() {
 	core.Register(&core.Check{ID: "C17", Expand: expandC17, Run: runC17})
 }
 
-var svcTopics = []string{"s/a", "s/b", "s/c", "s/+", "s/#"}
+var svcTopics = []string{"s/a", "s/b", "s/c", "s/+", "s/#", "s", "s/a/x"}
 
 func expandC17(_ *testing.T, seed uint64, tier string) []*core.Plan {
 	r := core.NewRand(core.Derive(seed, "plan"))
@@ -412,6 +412,16 @@ func judgeC17(w *World, r *cliRun, cmds []*svcCmd, clean bool, healthy *Conn, st
 		}
 	}
 	// (S3) publish futures survive reconnects (persistent session only)
+	sentOK := map[int]bool{}
+	for _, e := range w.Hist {
+		if e.K == EvSent && e.Err == nil {
+			if q, ok := e.P.(*packet.Publish); ok && !q.Dup {
+				var tg int
+				fmt.Sscanf(string(q.Message.Payload), "#%d#", &tg)
+				sentOK[tg] = true
+			}
+		}
+	}
 	if !clean && healthy != nil && !healthy.BEOF {
 		for _, c := range cmds {
 			if c.kind != "pub" || c.qos == 0 || c.fut == nil || !seenOnWire[c.tag] {
@@ -428,6 +438,8 @@ func judgeC17(w *World, r *cliRun, cmds []*svcCmd, clean bool, healthy *Conn, st
 			}
 			if !c.fut.resolved {
 				res.Violate("C17", "C17.future-survives", fmt.Sprintf("pub%d", c.qos), fmt.Sprintf("the future of publish #%d (QoS %d) is unresolved although the session was resumed on a healthy connection for 40 virtual seconds", c.tag, c.qos))
+			} else if c.fut.err != nil && sentOK[c.tag] {
+				res.Violate("C17", "C17.future-survives", fmt.Sprintf("pub%d-cancelled", c.qos), fmt.Sprintf("the future of publish #%d (QoS %d) was cancelled (%v) although no Stop(true) intervened: the packet is kept by the persistent session, retransmitted and acknowledged, so the future must survive the reconnect and complete", c.tag, c.qos, c.fut.err))
 			}
 		}
 	}
